@@ -451,6 +451,11 @@ func (cs *clientStream) doHttpCall(transport http.RoundTripper, req *http.Reques
 		var sz int32
 		sz, rErr = readSizePreface(reply.Body)
 		if rErr != nil {
+			if rErr == io.EOF {
+				// a complete reply always ends with a trailer message, so the
+				// body ending here, without one, means the reply was cut short
+				rErr = io.ErrUnexpectedEOF
+			}
 			return
 		}
 		if sz < 0 {
